@@ -93,6 +93,26 @@ protected:
 }; // AdapterBase< T>
 
 
+/// Checks if two containers share at least one value. In contrast to
+/// common::hasIntersection() the values in the containers need not be sorted.
+///
+/// @tparam  C  The type of the containers.
+/// @param[in]  cont1  The first container.
+/// @param[in]  cont2  The second container.
+/// @return  \c true if at least one value exists in both containers.
+/// @since  x.y.z, 01.10.2026
+template< typename C>
+   bool unsortedHasIntersection( const C& cont1, const C& cont2)
+{
+   for (auto const& value : cont1)
+   {
+      if (std::find( cont2.begin(), cont2.end(), value) != cont2.end())
+         return true;
+   } // end for
+   return false;
+} // unsortedHasIntersection
+
+
 /// Simple container adapter for types that are not supported.
 ///
 /// @tparam  T
@@ -207,7 +227,7 @@ public:
    /// @since  1.34.1, 14.01.2020
    bool hasIntersection( const ContainerAdapter& other) const
    {
-      return common::hasIntersection( mDestCont, other.mDestCont);
+      return unsortedHasIntersection( mDestCont, other.mDestCont);
    } // ContainerAdapter< std::deque< T>>::hasIntersection
 
    /// Returns a string with the values from the container.
@@ -323,7 +343,7 @@ public:
    /// @since  1.34.1, 14.01.2020
    bool hasIntersection( const ContainerAdapter& other) const
    {
-      return common::hasIntersection( mDestCont, other.mDestCont);
+      return unsortedHasIntersection( mDestCont, other.mDestCont);
    } // ContainerAdapter< std::forward_list< T>>::hasIntersection
 
    /// Returns a string with the values from the container.
@@ -447,7 +467,7 @@ public:
    /// @since  1.34.1, 14.01.2020
    bool hasIntersection( const ContainerAdapter& other) const
    {
-      return common::hasIntersection( mDestCont, other.mDestCont);
+      return unsortedHasIntersection( mDestCont, other.mDestCont);
    } // ContainerAdapter< std::list< T>>::hasIntersection
 
    /// Returns a string with the values from the container.
@@ -1176,7 +1196,7 @@ public:
    /// @since  1.34.1, 14.01.2020
    bool hasIntersection( const ContainerAdapter& other) const
    {
-      return common::hasIntersection( mDestCont, other.mDestCont);
+      return unsortedHasIntersection( mDestCont, other.mDestCont);
    } // ContainerAdapter< std::unordered_multiset< T>>::hasIntersection
 
    /// Returns a string with the values from the container.
@@ -1295,7 +1315,7 @@ public:
    /// @since  1.34.1, 14.01.2020
    bool hasIntersection( const ContainerAdapter& other) const
    {
-      return common::hasIntersection( mDestCont, other.mDestCont);
+      return unsortedHasIntersection( mDestCont, other.mDestCont);
    } // ContainerAdapter< std::unordered_set< T>>::hasIntersection
 
    /// Returns a string with the values from the container.
@@ -1425,7 +1445,7 @@ public:
    /// @since  1.34.1, 14.01.2020
    bool hasIntersection( const ContainerAdapter& other) const
    {
-      return common::hasIntersection( mDestCont, other.mDestCont);
+      return unsortedHasIntersection( mDestCont, other.mDestCont);
    } // ContainerAdapter< std::vector< T>>::hasIntersection
 
    /// Returns a string with the values from the container.
